@@ -173,7 +173,7 @@ def model(spec, order):
             raise Fail("valuepoll not initialized")
         if ia and not ia_ok:
             raise Fail("input fed by InitAsync not initialized")
-        if spec.get('calc') == 'raise':
+        if spec.get('calc') in ('raise', 'undef'):
             raise Fail("first evaluation")
         ok = True
     except Fail as err:
@@ -219,6 +219,8 @@ def run_order(spec, order, ctx):
                     hist.log('first_eval', spec['calc'])
                     if spec['calc'] == 'raise':
                         raise RuntimeError('calc fault')
+                    if spec['calc'] == 'undef':
+                        return edzed.UNDEF      # a combinational output must never be UNDEF
                     return 0
                 objs['#calc'] = edzed.FuncBlock('calc', func=cf).connect(spec['blocks'][0]['name'])
                 continue
@@ -533,7 +535,7 @@ def random_spec(rng, quick):
         extra += ['#ia', '#fed']
     r = rng.random()
     if r < 0.25:
-        spec['calc'] = 'raise' if rng.random() < 0.6 else 'ok'
+        spec['calc'] = rng.choice(['raise', 'raise', 'undef', 'ok', 'ok'])
         extra.append('#calc')
         if rng.random() < 0.6:
             extra.append('#astop')
